@@ -31,6 +31,14 @@ SwapSym == LET D == Class(o2, o1, Num(iv2, iv1)) IN
            \/ (D.t = C.t /\ D.k1 = C.k2 /\ D.k2 = C.k1)
 \* reading the edge from the other strand (both orientations inverted) keeps the class
 InvSym == LET D == Class(Inv2(o1), Inv2(o2), Num(iv1, iv2)) IN D = C
+\* the length-based reading of the interval kind used by the symbolic (Apalache) check of the
+\* laws for every segment length (spec/apalache/EdgeClassApa.tla) is the same function
+KindByLen(b, e, len) ==
+  IF b = 0 /\ b # len THEN (IF e = len THEN "whole" ELSE "pfx")
+  ELSE IF b = len THEN "sfx"
+  ELSE IF e = len THEN "sfx" ELSE "inner"
+KindAgrees == /\ KindByLen(iv1[1][1], iv1[2][1], SLen) = Kind(iv1[1][1], iv1[1][2], iv1[2][1], iv1[2][2])
+              /\ KindByLen(iv2[1][1], iv2[2][1], SLen) = Kind(iv2[1][1], iv2[1][2], iv2[2][1], iv2[2][2])
 \* a dovetail always joins two segment ends, a containment one container and one contained
 Shape == /\ C.t = "L" => C.k1 \in {"dovetails_L", "dovetails_R"} /\ C.k2 \in {"dovetails_L", "dovetails_R"}
          /\ C.t = "C" => {C.k1, C.k2} = {"edges_to_contained", "edges_to_containers"}
